@@ -85,7 +85,7 @@ def exact_instances(tier):
     U = lambda h: max(h + 2, 7)
     kinds = [("Substring", "substring"), ("Prefix", "prefix"), ("Postfix", "postfix"), ("Exact", "exact")]
     if tier == "quick":
-        sizes = {"substring": [(4, 2), (5, 3), (4, 3)], "prefix": [(4, 2), (3, 3)], "postfix": [(4, 2), (5, 3)], "exact": [(4, 2), (3, 3), (4, 3)]}
+        sizes = {"substring": [(4, 2), (4, 3), (5, 3)], "prefix": [(4, 2), (3, 3)], "postfix": [(4, 2), (5, 3)], "exact": [(4, 2), (3, 3), (4, 3)]}
         f1 = [(3, 1), (5, 1)]
     else:
         allsz = [(h, n) for h in range(2, 9) for n in range(2, 5) if n <= h]
@@ -96,20 +96,88 @@ def exact_instances(tier):
         for h, n in sizes[kn]:
             paths = [_pth(k)] if tier == "quick" else ["false", "true"]
             k += 1
+            # the substring matcher's strategy depends on ignore_case: fixed per instance
+            ics = ["Some(true)", "Some(false)"] if kn == "substring" else ["None"]
             for pa in paths:
-                p = (h + n) % 2
-                out.append(Inst("%s_ascii_h%d_n%d_%s" % (kn, h, n, "path" if pa == "true" else "dflt"), U(h),
-                                "contiguous_ascii::<%d, %d, %d>(Kind::%s, Some(%s))" % (h, n, p, K, pa),
-                                ["C05", "C02", "C03", "C10"],
-                                {"H": h, "N": n, "kind": kn, "prior_indices": p, "repr": "ascii x ascii",
-                                 "bonus_profile": "match_paths" if pa == "true" else "default"}, "matcher_exact"))
+                for ic in ics:
+                    p = (h + n) % 2
+                    nm = "%s_ascii_h%d_n%d_%s%s" % (kn, h, n, "path" if pa == "true" else "dflt",
+                                                     {"Some(true)": "_ic", "Some(false)": "_cs", "None": ""}[ic])
+                    out.append(Inst(nm, U(h),
+                                    "contiguous_ascii::<%d, %d, %d>(Kind::%s, Some(%s), %s)" % (h, n, p, K, pa, ic),
+                                    ["C05", "C02", "C03", "C10"],
+                                    {"H": h, "N": n, "kind": kn, "prior_indices": p, "repr": "ascii x ascii",
+                                     "ignore_case": {"Some(true)": True, "Some(false)": False, "None": "symbolic"}[ic],
+                                     "bonus_profile": "match_paths" if pa == "true" else "default"}, "matcher_exact"))
+    # long needles / far starts: content = one symbolic byte repeated, length concrete
+    for kn, K in (("exact", "Exact"), ("prefix", "Prefix")) if tier == "quick" else (("exact", "Exact"), ("prefix", "Prefix"), ("postfix", "Postfix"), ("fuzzy", "Fuzzy1")):
+        o = Inst("long_needle_%s_4200" % kn, 4203, "long_needle::<4200>(Kind::%s)" % K, ["C03", "C10", "C05"],
+                 {"L": 4200, "content": "one symbolic ASCII byte repeated", "kind": kn, "config": "symbolic"}, "matcher_exact")
+        out.append(o)
+    out.append(Inst("far_start_22000", 22003, "far_start::<22000>()", ["C10", "C05", "C01"],
+                    {"L": 22000, "content": "symbolic filler byte repeated + symbolic last byte", "prefer_prefix": True}, "matcher_exact"))
     for h, n in f1:
         for pa in ["false", "true"]:
             out.append(Inst("fuzzy1_ascii_h%d_%s" % (h, "path" if pa == "true" else "dflt"), U(h),
-                            "contiguous_ascii::<%d, 1, 1>(Kind::Fuzzy1, Some(%s))" % (h, pa),
+                            "contiguous_ascii::<%d, 1, 1>(Kind::Fuzzy1, Some(%s), None)" % (h, pa),
                             ["C04", "C01", "C02", "C03", "C10"],
                             {"H": h, "N": 1, "kind": "fuzzy, one-character needle", "repr": "ascii x ascii",
                              "bonus_profile": "match_paths" if pa == "true" else "default"}, "matcher_exact"))
+    return out
+
+
+UNI_RULES = [(r"skip_search", 300)]
+
+
+def uni_instances(tier):
+    out = []
+    U = lambda h: max(h + 2, 13)   # binary search over the 1454-entry folding table: 11 iterations
+    A = ["C01", "C02", "C03", "C04", "C10"]
+    def add(name, h, expr, props, bounds):
+        bounds = dict(bounds); bounds["repr"] = bounds.get("repr", "code points"); bounds["alphabet"] = "every scalar below U+2100"
+        out.append(_with_rules(Inst(name, U(h), expr, props, bounds, "matcher_uni"), UNI_RULES))
+    q = tier == "quick"
+    # P'
+    for h, n, na in ([(4, 2, False), (4, 2, True)] if q else [(h, n, na) for h in range(3, 7) for n in range(2, 4) if n < h for na in (False, True)]):
+        add("prefilter_uni_h%d_n%d_%s" % (h, n, "an" if na else "un"), h, "prefilter_uni::<%d, %d>(%s)" % (h, n, str(na).lower()),
+            ["C01", "C10"], {"H": h, "N": n, "needle": "ascii bytes" if na else "code points"})
+    # O'
+    wins = [(4, 2, 0, 4, False), (4, 2, 1, 4, True), (5, 3, 0, 5, False)] if q else \
+           [(h, n, s, e, na) for h in range(3, 7) for n in range(2, 4) if n < h for s in range(0, h - n) for e in range(s + n + 1, h + 1) for na in (False, True)]
+    for k, (h, n, s, e, na) in enumerate(wins):
+        pa = _pth(k)
+        add("optimal_uni_h%d_n%d_w%d_%d_%s" % (h, n, s, e, "an" if na else "un"), h,
+            "optimal_uni::<%d, %d, %d>(%d, %d, %s, Some(%s))" % (h, n, k % 2, s, e, str(na).lower(), pa), A,
+            {"H": h, "N": n, "window": [s, e], "needle": "ascii bytes" if na else "code points", "bonus_profile": "match_paths" if pa == "true" else "default"})
+    # G'
+    gw = [(4, 2, 0, False), (5, 3, 1, True)] if q else [(h, n, s, na) for h in range(3, 8) for n in range(2, 4) if n < h for s in range(0, h - n + 1) for na in (False, True)]
+    for k, (h, n, s, na) in enumerate(gw):
+        pa = _pth(k)
+        add("greedy_uni_h%d_n%d_s%d_%s" % (h, n, s, "an" if na else "un"), h,
+            "greedy_uni::<%d, %d>(%d, %s, Some(%s))" % (h, n, s, str(na).lower(), pa), ["C01", "C03", "C10"],
+            {"H": h, "N": n, "start": s, "needle": "ascii bytes" if na else "code points", "bonus_profile": "match_paths" if pa == "true" else "default"})
+    # contiguous kinds + one-character arm
+    kinds = [("Substring", "substring"), ("Prefix", "prefix"), ("Postfix", "postfix"), ("Exact", "exact")]
+    cs = [("Substring", "substring", 4, 2, False), ("Substring", "substring", 4, 2, True), ("Prefix", "prefix", 4, 2, False), ("Postfix", "postfix", 4, 2, True), ("Exact", "exact", 3, 3, False)] if q else \
+         [(K, kn, h, n, na) for K, kn in kinds for h in range(2, 7) for n in range(2, 4) if n <= h for na in (False, True)]
+    for k, (K, kn, h, n, na) in enumerate(cs):
+        pa = _pth(k)
+        add("%s_uni_h%d_n%d_%s" % (kn, h, n, "an" if na else "un"), h,
+            "contiguous_uni::<%d, %d, %d>(Kind::%s, %s, Some(%s))" % (h, n, k % 2, K, str(na).lower(), pa), ["C05", "C02", "C03", "C10"],
+            {"H": h, "N": n, "kind": kn, "needle": "ascii bytes" if na else "code points", "bonus_profile": "match_paths" if pa == "true" else "default"})
+    for h, na in ([(3, False), (4, True)] if q else [(h, na) for h in range(2, 8) for na in (False, True)]):
+        for pa in ("false", "true"):
+            add("fuzzy1_uni_h%d_%s_%s" % (h, "an" if na else "un", "path" if pa == "true" else "dflt"), h,
+                "contiguous_uni::<%d, 1, 1>(Kind::Fuzzy1, %s, Some(%s))" % (h, str(na).lower(), pa), ["C04", "C01", "C02", "C03", "C10"],
+                {"H": h, "N": 1, "kind": "fuzzy, one-character needle", "needle": "ascii bytes" if na else "code points", "bonus_profile": "match_paths" if pa == "true" else "default"})
+    # representation independence at the public API (ASCII text held either way)
+    ri = [("Fuzzy1", 3, 2, False), ("Substring", 3, 2, False), ("Fuzzy1", 3, 2, True)] if q else \
+         [(K, h, n, g) for K in ("Fuzzy1", "Substring", "Prefix", "Postfix", "Exact") for (h, n) in ((3, 2), (3, 3), (4, 2)) for g in (False, True) if not (g and K != "Fuzzy1")]
+    for K, h, n, g in ri:
+        nm = "repr_%s_h%d_n%d" % ("greedy" if g else ("fuzzy" if K == "Fuzzy1" else K.lower()), h, n)
+        o = Inst(nm, max(h + 2, 7), "repr_independence::<%d, %d>(Kind::%s, %s)" % (h, n, K, str(g).lower()), ["C01", "C03", "C10"],
+                 {"H": h, "N": n, "entry": nm, "repr": "ASCII haystack x (bytes | code points) needle"}, "matcher_uni")
+        out.append(o)
     return out
 
 
@@ -118,14 +186,23 @@ def chars_instances(tier):
     return [
         Inst("chars_fold_reference", 16, None, ["C16"], B, None),
         Inst("chars_normalize_reference", 16, None, ["C16"], B, None),
-        Inst("chars_coherence", 64, None, ["C16"], B, None),
+        _with_rules(Inst("chars_coherence_norm", 13, None, ["C16"], B, None), [(r"skip_search", 300)]),
+        Inst("chars_coherence_compose", 13, None, ["C16"], B, None),
+        _with_rules(Inst("chars_coherence_class", 13, None, ["C16"], B, None), [(r"skip_search", 300)]),
+        _with_rules(Inst("chars_coherence_ascii", 13, None, ["C16"], {"domain": "all 128 ASCII values", "config": "symbolic"}, None), [(r"skip_search", 300)]),
     ]
+
+
+def _with_rules(inst, rules):
+    inst.unwind_rules = rules
+    return inst
 
 
 FAMILIES = {
     "matcher_fuzzy": fuzzy_instances,
     "chars": chars_instances,
     "matcher_exact": exact_instances,
+    "matcher_uni": uni_instances,
 }
 
 
